@@ -1,6 +1,7 @@
 package rules
 
 import (
+	"go/token"
 	"fmt"
 	"go/types"
 	"sort"
@@ -32,6 +33,14 @@ func runC11(e *Env) {
 	r.Rule("C11.R3", "locks", "reader state only under its mutex", 4)
 	r.Rule("C11.R4", "paths+flows", "flag discipline in the loop; fresh channel and flag for a replacement loop", 4)
 	r.Rule("C11.R5", "paths", "one fate per decoded message", 4)
+	r.Rule("C11.R6", "locks", "application callbacks run with no library mutex held (a nested request's reply is dispatched by another goroutine through the same code)", 3)
+	r.Rule("C11.R7", "flows", "the own message-ID counter is moved away from the ID of a confirmable request in progress (a nested request must not share its per-ID lock)", 3)
+	if e.want("C11.R6") {
+		c11NoLockAcrossCallback(e)
+	}
+	if e.want("C11.R7") {
+		c11OwnMID(e)
+	}
 	if e.want("C11.R1") {
 		for _, q := range []string{"udp/client.Conn.doInternal", "tcp/client.Conn.doInternal", "udp/client.Conn.waitForAcknowledge"} {
 			f := e.fn("C11.R1", q)
@@ -323,4 +332,106 @@ func c11OneFate(e *Env) {
 		})
 		e.R.Check(bad == "", rule, spec.fn+":at-most-one-fate", e.pos(dec), "a released message is never dispatched or released again in the same iteration", bad)
 	}
+}
+
+// c11NoLockAcrossCallback: the functions that hand a received message to application code (observe callback, request handler,
+// token continuation) do so with no sync.Mutex / RWMutex held on any path. While the callback waits for a nested request's
+// reply, the replacement reader loop runs the same function for the next message; a mutex held across the callback would
+// stop it (the per-message-ID MutexMap of handleReq is keyed and documented separately: C05.R1).
+func c11NoLockAcrossCallback(e *Env) {
+	rule := "C11.R6"
+	for _, fn := range []string{"net/observation.Observation.handle", "net/observation.Handler.Handle", "udp/client.Conn.handleReq", "tcp/client.Conn.handleReq", "udp/client.Conn.handle", "tcp/client.Conn.handle", "udp/client.Conn.ProcessReceivedMessageWithHandler", "tcp/client.Conn.ProcessReceivedMessageWithHandler", "udp/client.Conn.processReceivedMessage", "tcp/client.Conn.processReceivedMessage"} {
+		f := e.P.Func(fn)
+		if f == nil {
+			continue
+		}
+		la := core.AnalyzeLocksMay(f)
+		n := 0
+		bad := ""
+		core.Instrs(f, func(in ssa.Instruction) {
+			c, ok := in.(*ssa.Call)
+			if !ok || c.Call.IsInvoke() {
+				return
+			}
+			if core.StaticFn(c) != nil {
+				// static library call: only follow the ones that are themselves in the list
+				return
+			}
+			// dynamic call of a func value taking a *pool.Message: a callback
+			sig, isSig := c.Call.Value.Type().Underlying().(*types.Signature)
+			if !isSig {
+				return
+			}
+			takesMsg := false
+			for i := 0; i < sig.Params().Len(); i++ {
+				if core.TypeName(sig.Params().At(i).Type()) == "*message/pool.Message" {
+					takesMsg = true
+				}
+			}
+			if !takesMsg {
+				return
+			}
+			n++
+			if held := la.At(c); len(held) > 0 {
+				bad = "callback at " + e.pos(c) + " may run with " + held.String() + " held"
+			}
+		})
+		if n == 0 {
+			continue
+		}
+		e.R.Check(bad == "", rule, fn+":callback-without-lock", e.fpos(f), fmt.Sprintf("%d callback invocation(s), no mutex held on any path", n), "a handler that issues a blocking request stalls the connection: the next message for the same object blocks the only reader on this mutex: "+bad)
+	}
+}
+
+// c11OwnMID: checkMyMessageID compares (peer − own) mod 2^16 against a threshold and jumps the own counter ahead when the peer's
+// ID is close in front of it. The operand order matters: own − peer is large exactly when the own counter is about to reach the
+// peer's ID.
+func c11OwnMID(e *Env) {
+	rule := "C11.R7"
+	f := e.fn(rule, "udp/client.Conn.checkMyMessageID")
+	if f == nil {
+		return
+	}
+	var thr int64 = -1
+	okOrder, found := false, false
+	var guard *ssa.If
+	for _, i := range core.IfsOf(f) {
+		cmp, ok := core.AsCmp(i.Cond)
+		if !ok || (cmp.Op != token.GEQ && cmp.Op != token.GTR) {
+			continue
+		}
+		k, isK := core.ConstInt(cmp.Y)
+		sub, isSub := core.Unwrap(cmp.X).(*ssa.BinOp)
+		if !isK || !isSub || sub.Op != token.SUB {
+			continue
+		}
+		found = true
+		thr = k
+		guard = i
+		x := core.Resolve(stripCastCalls(sub.X))
+		y := core.Resolve(stripCastCalls(sub.Y))
+		xc, xIs := x.(*ssa.Call)
+		okOrder = xIs && strings.HasSuffix(core.CalleeName(xc), "pool.Message.MessageID") && isAtomicLoadOf(y, "msgID")
+	}
+	e.R.Check(found && okOrder, rule, "udp/client.Conn.checkMyMessageID:distance", e.fpos(f), "distance tested is uint16(peer) − uint16(own)", "the distance between the peer's and the own message ID is not computed as peer − own: the counter is left alone exactly when it is about to meet the peer's ID")
+	if !found {
+		return
+	}
+	// the early return is on the far edge; the near edge moves the counter by a step that lands far away again
+	rets := 0
+	for _, ret := range core.ReturnsOf(f) {
+		if core.OnlyViaEdge(guard, true, ret) {
+			rets++
+		}
+	}
+	e.R.Check(rets >= 1, rule, "udp/client.Conn.checkMyMessageID:far-returns", e.fpos(f), "returns without touching the counter only on the far edge", "no return on the far edge")
+	okStep := false
+	for _, c := range core.Calls(f, func(n string, _ ssa.CallInstruction) bool { return strings.HasSuffix(n, "atomic.Uint32.CompareAndSwap") }) {
+		if add, isAdd := core.Unwrap(core.Arg(c, 2)).(*ssa.BinOp); isAdd && add.Op == token.ADD {
+			if k, isK := core.ConstInt(add.Y); isK && k >= thr && k <= 0xffff-thr && core.OnlyViaEdge(guard, false, c.(ssa.Instruction)) {
+				okStep = true
+			}
+		}
+	}
+	e.R.Check(okStep, rule, "udp/client.Conn.checkMyMessageID:step", e.fpos(f), fmt.Sprintf("near edge: compare-and-swap to old + k with %d ≤ k ≤ %d", thr, 0xffff-thr), "on the near edge the counter is not moved by a step that takes it out of the near window")
 }
